@@ -119,9 +119,19 @@ def op_term(words):
     if n == "EnumSetEnum":
         return "L3 (EnumSetEnum %s %s %s)" % (hd(a[0]), oh(a[1]), bb(a[2]))
     if n == "Assign":
-        v = a[3]
-        assert v == "-" or v in CAUSES, v
-        return "L3 (Assign %s %s %s)" % (hd(a[0]), oh(a[1]), "None" if v == "-" else "(Some %s)" % v)
+        val = {"0": "(VInt 5%Z)", "1": "(VInt (-1)%Z)", "2": "(VInt 11%Z)", "3": "(VFloat 500%Z)", "4": "(VFloat 2000%Z)",
+               "5": "(VStr 5%N)", "6": "(VStr 6%N)"}.get(a[2], "VOther")
+        return "L3 (Assign %s %s %s)" % (hd(a[0]), oh(a[1]), val)
+    if n == "NewAttrString":
+        return "L3 (NewAttr AString)"
+    if n == "NewAttrInt":
+        return "L3 (NewAttr (AInt %s %s))" % (zz(a[0]), zz(a[1]))
+    if n == "NewAttrFloat":
+        return "L3 (NewAttr (AFloat %s %s))" % (zz(a[0]), zz(a[1]))
+    if n == "NewAttrEnum":
+        return "L3 (NewAttr (AEnum %s))" % lst([nm(x) for x in a])
+    if n == "CloneAttr":
+        return "L3 (AttrClone %s)" % hd(a[0])
     if n == "RemoveAssign":
         return "L3 (RemoveAssign %s %s)" % (hd(a[0]), hd(a[1]))
     if n == "RemoveAllAssign":
@@ -177,7 +187,7 @@ def observed_term(dump):
     heaps = {k: [] for k in "NBOIMEVS"}
     sname, spmsg, spmux, xshape = [], [], [], []
     sets = {k: [] for k in ("xsigs", "xfixed", "mtop", "msigs", "Rt", "Ru", "Re", "Ra", "As", "Rc")}
-    xnames, mnames, xgids, bb_ = [], [], [], []
+    xnames, mnames, xgids, bb_, ak = [], [], [], [], []
     for item in dump.split("|"):
         if not item:
             continue
@@ -239,13 +249,24 @@ def observed_term(dump):
             sets[tag].append("(%s, %s)" % (h, hset(body)))
         elif tag == "Bb":
             bb_.append("(%s, %s)" % (h, hd(body)))
+        elif tag == "Ak":
+            w = body.split(",")
+            if w[0] == "s":
+                k = "AString"
+            elif w[0] == "i":
+                k = "(AInt %s %s)" % (zz(w[1]), zz(w[2]))
+            elif w[0] == "f":
+                k = "(AFloat %s %s)" % (zz(w[1]), zz(w[2]))
+            else:
+                k = "(AEnum %s)" % lst([nm(x) for x in w[1].split("+") if x])
+            ak.append("(%s, %s)" % (h, k))
         else:
             raise AssertionError("unknown item " + item)
     H = lambda xs: "(H_ %s)" % lst(xs)
     return ("(mkObserved %s)" % " ".join(
         [H(heaps[k]) for k in "NBOIMEVS"] + [H(sname), "(Mh %s)" % lst(spmsg), "(Mh %s)" % lst(spmux), H(xshape),
                                             H(sets["xsigs"]), H(xnames), H(sets["xfixed"]), H(xgids), H(sets["mtop"]), H(sets["msigs"]), H(mnames)]
-        + [H(sets[k]) for k in ("Rt", "Ru", "Re", "Ra", "As", "Rc")] + ["(Mh %s)" % lst(bb_)]))
+        + [H(sets[k]) for k in ("Rt", "Ru", "Re", "Ra", "As", "Rc")] + ["(Mh %s)" % lst(bb_), H(ak)]))
 
 
 def read_histories(path, wanted):
